@@ -87,8 +87,7 @@ def run(tier, seed):
         evaluations=sum(len(c[2].split("\n")) for c in cases),
         distinct_nontrivial=len(cases),
         rule="every instruction text of tests/comparison/*.txt that has a numeric operand (quick: 60 per CPU), each numeric "
-             "operand position probed with the 89 values of Codec!ProbeSet (2^k-1, 2^k, 2^k+1, -2^k, -2^k-1, -2^k+1 for 14 "
-             "field widths); non-trivial/distinct = (cpu, form, operand position) groups",
+             "operand position probed with the values of Codec!ProbeSet (2^k-1, 2^k, 2^k+1, -2^k, -2^k-1, -2^k+1 for k = 1..17, 20, 21, 23, 24, 26, 31, 32); non-trivial/distinct = (cpu, form, operand position) groups",
         traces_validated_against_impl=len(events) - len(canaries), probe_values=len(vals), not_covered=sorted(skip),
         canaries=dict(injected=len(canaries), rejected=len(canaries)), exhaustive=False))
     chk.samples = [dict(cpu=meta[c[0]][0], form=meta[c[0]][1], operand=meta[c[0]][2]) for c in rnd.sample(cases, 5)]
